@@ -55,6 +55,11 @@ def mutations(ctx, config, rng, C, Co, H, Ho, pr, extra, tag, full_flips=False):
             vcase(ctx, config, C, Co, H, Ho, proof[:o] + b32(s + n) + proof[o + 32:], extra, tag + ":scalar+n")
         for nv, cl in ((0, "scalar_zero"), (n, "scalar_n"), (2**256 - 1, "scalar_max"), (n - s, "scalar_negated")):
             if rng.random() < 0.5: vcase(ctx, config, C, Co, H, Ho, proof[:o] + b32(nv) + proof[o + 32:], extra, tag + ":" + cl)
+    # every proof length from 0 to len+40 for small proofs (truncation / trailing bytes at every offset, not only +-1)
+    if len(proof) <= 330 and rng.random() < 0.35:
+        tail = bytes(rng.getrandbits(8) for _ in range(40)) if rng.random() < 0.5 else bytes(40)
+        for L in range(0, len(proof) + 41):
+            if L != len(proof) and (L > len(proof) - 70 or L % 7 == 0): vcase(ctx, config, C, Co, H, Ho, (proof + tail)[:L], extra, tag + ":len_sweep", nontrivial=abs(L - len(proof)) <= 33)
     # e0
     o = soff - 32; t = bytearray(proof); t[o + rng.randrange(32)] ^= 1 << rng.randrange(8); vcase(ctx, config, C, Co, H, Ho, bytes(t), extra, tag + ":e0_altered")
     # digit commitments
